@@ -150,7 +150,7 @@ Proof.
   rewrite Forall_forall in Ht. specialize (Ht e0 He0).
   destruct e0 as [r off w al| | |]; try exact I.
   destruct r; [|exact Ht]. cbn in Ht |- *.
-  destruct Ht as [Hb Hal]. split; [fold len; lia|]. intros E. specialize (Hal E).
+  destruct Ht as [Hb Hal]. split; [fold len; lia|]. intros E Hw. specialize (Hal E Hw).
   replace (a + (off + it_start it)) with (a + it_start it + off) by lia. exact Hal.
 Qed.
 
